@@ -207,7 +207,7 @@ class C35(Property):
             except Exception as e:  # noqa
                 tags.append((name, case, ["err", err_kind(e)]))
 
-        for _ in range(ctx.n(300, 5000)):
+        for _ in range(ctx.n(300, 3000)):
             cls = rng.choice(ALL + ORDINAL)
             kw = gen_kwargs(rng, cls)
             u = rng.random()
@@ -225,7 +225,7 @@ class C35(Property):
                 return ["ok", list(d.items()), type(b).__name__, axis_fields(b)]
             add(f"roundtrip {cls} {fields_s(kw)}", "axis_to_dict / axis_from_dict", case, rt)
         # from_dict of hand-made dictionaries
-        for _ in range(ctx.n(150, 2500)):
+        for _ in range(ctx.n(150, 1500)):
             cls = rng.choice(ALL)
             try:
                 d = list(axis_to_dict(make(cls, gen_kwargs(rng, cls))).items())
@@ -243,7 +243,7 @@ class C35(Property):
                 d.append((rng.choice(["bogus", "value", "Sampling"]), 1))
             add(f"fromdict {fields_s(d)}", "axis_from_dict", dict(d=d), lambda: show_axis(axis_from_dict(dict((k, tup(v)) for k, v in d))))
         # indexing
-        for _ in range(ctx.n(400, 6000)):
+        for _ in range(ctx.n(400, 3500)):
             cls = rng.choice(ORDINAL)
             kw = [(k, v) for k, v in gen_kwargs(rng, cls) if k != "values"] + [("values", gen_values(rng))]
             n = len(kw[-1][1])
@@ -252,7 +252,7 @@ class C35(Property):
             add(f"getitem {cls} {fields_s(kw)} {item_s(it)}", "OrdinalAxis.__getitem__", case, lambda: show_axis(make(cls, kw)[to_item(it)]))
             ctx.count(f"getitem:{it[0]}")
         # concatenation
-        for _ in range(ctx.n(250, 4000)):
+        for _ in range(ctx.n(250, 2500)):
             cls = rng.choice(ORDINAL + ORDINAL + LINEAR + PLAIN)
             vk = rng.choice(["num", "str", "pair"])
             kw = gen_kwargs(rng, cls, vk)
@@ -271,7 +271,7 @@ class C35(Property):
             add(f"concat {cls} {fields_s(kw)} {cls2} {fields_s(kw2)}", "concatenate", case,
                 lambda: show_axis(make(cls, kw).concatenate(make(cls2, kw2))))
         # coordinates
-        for _ in range(ctx.n(120, 2000)):
+        for _ in range(ctx.n(120, 1200)):
             cls = rng.choice(ALL)
             kw = gen_kwargs(rng, cls, "num")
             n = rng.randint(-1, 7)
@@ -379,7 +379,7 @@ class C35(Property):
 
     def conformance(self, ctx: Ctx):
         rng = ctx.rng
-        for _ in range(ctx.n(500, 8000)):
+        for _ in range(ctx.n(500, 5000)):
             c = self.gen_case(rng)
             try:
                 self.check_case(ctx, c)
